@@ -41,7 +41,8 @@ Inductive sobs := OErr | OPanic | OHang | OPlan (p : plan).   (* OHang: Plan did
 Record scase := {
   sc_fx : bool;          (* the tree contains the prev-owner repair (probed by the harness) *)
   sc_hooked : bool;      (* the sticky.iter.* call sites reported the iteration orders *)
-  sc_members : list member; sc_topics : topics_t; sc_oracle : oracle; sc_obs : sobs }.
+  sc_members : list member; sc_topics : topics_t; sc_oracle : oracle; sc_obs : sobs;
+  sc_reverted : option bool   (* whether the revert branch of balance() ran (sticky.revert call site); None = not observable *) }.
 Definition sticky_fuel : nat := 400.
 (* the run made no reverse-pair redirection <-> the sticky.pick call site was never reached *)
 Definition direct_matches (c : scase) : bool :=
@@ -49,12 +50,14 @@ Definition direct_matches (c : scase) : bool :=
   Bool.eqb (plan_directb sticky_fuel (sc_fx c) (sc_oracle c) (sc_members c) (sc_topics c))
            (match o_picks (sc_oracle c) with [] => true | _ => false end).
 Definition ok_sticky (c : scase) : bool :=
-  match sticky_plan sticky_fuel (sc_fx c) (sc_oracle c) (sc_members c) (sc_topics c), sc_obs c with
+  let r := sticky_plan_full sticky_fuel (sc_fx c) (sc_oracle c) (sc_members c) (sc_topics c) in
+  match p_res r, sc_obs c with
   | SErr, OErr => true
   | SPanic, OPanic => true
   | SFuel _, OHang => direct_matches c
   | SOk p, OPlan q =>
-    if sc_hooked c then plan_eqb p q && (negb (sc_fx c) || valid_planb (sc_members c) (sc_topics c) q) && direct_matches c
+    if sc_hooked c then plan_eqb p q && (negb (sc_fx c) || valid_planb (sc_members c) (sc_topics c) q) && direct_matches c &&
+                        match sc_reverted c with Some b => Bool.eqb (p_reverted r) b | None => true end
     else negb (sc_fx c) || valid_planb (sc_members c) (sc_topics c) q
   | _, _ => negb (sc_hooked c) && negb (sc_fx c)
   end.
